@@ -35,6 +35,10 @@ PROP = dict(
         "x/onboarding/ibc_middleware.go OnRecvPacket (the callback runs only after a successful transfer acknowledgement: the credit precedes it)",
     ],
     assumptions=[
+        "the voucher the harness credits (and the model's packet denomination) is the one ibc-go's transfer module mints: hash of dstPort/dstChannel/ + the FULL raw packet denomination, "
+        "computed with ibc-go's ParseDenomTrace independently of /repo/ibc/utils.go; raw denominations with 0, 1 and 2 earlier hops are generated, and for the multi-hop ones the observation "
+        "watches the recipient's prior balance of the one-hop voucher of the same base denomination (which has a pool and a pair)",
+        "module-account recipients include ModuleAccounts stored under names the app's permission table does not know (not on the bank blocklist): the guard is about the stored account's type",
         "the model is handed the parameters the history COMMITTED (through the keeper, MsgUpdateParams with the gov authority, or a legacy ParameterChangeProposal), not the ones the keeper "
         "reports; before a quarter of the packets (always in a replay) a different parameter set is written on a branch that is discarded, and the Go-side monitor "
         "`onboarding-params-differ-from-last-committed-update` requires GetParams to equal the last committed update. An empty whitelist is never committed through the legacy route "
